@@ -61,10 +61,20 @@ for seed in seeds:
     for p in fired[:2] + errs[:1]:
         print(f"      {p}: {res[p][1]}")
     matrix[seed] = {"fired": fired, "errors": errs, "detail": {p: res[p][1] for p in fired + errs}}
-json.dump(matrix, open(os.path.join(VERIF, "refactors", "MATRIX.json"), "w"), indent=1)
-if not args:
-    with open(os.path.join(VERIF, "refactors", "MATRIX.md"), "w") as fh:
-        fh.write("# Behaviour-preserving refactorings x checks (quick tier): all must be silent\n\n| change | checks that fire (exit 1) | analysis errors (exit 2) |\n|---|---|---|\n")
-        for seed in seeds:
-            m = matrix[seed]
+# partial runs are merged into the stored matrix; the table is always rewritten from it
+mpath = os.path.join(VERIF, "refactors", "MATRIX.json")
+try:
+    stored = json.load(open(mpath))
+except Exception:
+    stored = {}
+stored.update(matrix)
+all_seeds = sorted(d for d in os.listdir(os.path.join(VERIF, "refactors")) if os.path.isdir(os.path.join(VERIF, "refactors", d)))
+stored = {k: v for k, v in stored.items() if k in all_seeds}
+json.dump(stored, open(mpath, "w"), indent=1)
+with open(os.path.join(VERIF, "refactors", "MATRIX.md"), "w") as fh:
+    fh.write("# Behaviour-preserving refactorings x checks (quick tier): every check must stay silent\n\n"
+             "(last result per refactoring)\n\n| refactoring | checks that fire (exit 1) | analysis errors (exit 2) |\n|---|---|---|\n")
+    for seed in all_seeds:
+        if seed in stored:
+            m = stored[seed]
             fh.write(f"| {seed} | {', '.join(m['fired']) or '-'} | {', '.join(m['errors']) or '-'} |\n")
